@@ -24,7 +24,7 @@ from __future__ import absolute_import
 from gevent import Timeout
 
 from slimta.smtp.client import LmtpClient
-from .client import SmtpRelayClient, _AllRecipientsRejected
+from .client import SmtpRelayClient, _AllRecipientsRejected, _refused
 from . import SmtpRelayError
 
 __all__ = ['LmtpRelayClient']
@@ -61,7 +61,7 @@ class LmtpRelayClient(SmtpRelayClient):
             return
         had_errors = False
         for rcpt, reply in data_results:  # type: ignore
-            if reply.is_error():
+            if _refused(reply):
                 rcpt_results[rcpt] = SmtpRelayError.factory(reply)
                 had_errors = True
             else:
